@@ -207,6 +207,9 @@ def run_harnesses(names, tier, specs):
             json.dump(r, open(cpath, "w"))
         return n, r
 
+    # harnesses that ask for more memory than the default cap run alone, after the parallel batch
+    big = [it for it in todo if specs.get(it[0], {}).get("mem_kb", 0) > mem_kb]
+    todo = [it for it in todo if it not in big]
     # one harness per worker dir at a time: group by worker index
     groups = {}
     for i, it in enumerate(todo):
@@ -222,4 +225,7 @@ def run_harnesses(names, tier, specs):
         for out in ex.map(run_group, groups.values()):
             for n, r in out:
                 results[n] = r
+    for i, it in enumerate(big):
+        n, r = job((i, it))
+        results[n] = r
     return results, digest
